@@ -286,12 +286,7 @@ fn gen_tree(t: &mut Tape, env: &Env, st: &mut Stats, column: usize) -> Tree {
 }
 
 fn gen_invocation(t: &mut Tape, tree: &Tree, which: CliWhich, column: usize, st: &mut Stats) -> Invocation {
-    let files: Vec<String> = tree
-        .entries
-        .iter()
-        .filter(|e| !matches!(e.kind, Kind::Dir | Kind::Symlink { .. }))
-        .map(|e| e.path.clone())
-        .collect();
+    let files: Vec<String> = tree.entries.iter().filter(|e| !matches!(e.kind, Kind::Dir)).map(|e| e.path.clone()).collect();
     let dirs: Vec<String> = tree.entries.iter().filter(|e| matches!(e.kind, Kind::Dir)).map(|e| e.path.clone()).collect();
     if which == CliWhich::C16 && t.chance(40) {
         // the width-only convenience function: one or two texts at several widths, mostly ladders of
@@ -416,6 +411,28 @@ fn fixed_mtime() -> filetime::FileTime {
 struct Snapshot {
     /// relative path -> (bytes, mtime)
     files: BTreeMap<String, (Vec<u8>, filetime::FileTime)>,
+    /// every entry below the scratch base (tree and `outside/`): path -> 'f'ile / 'd'irectory / sym'l'ink
+    listing: BTreeMap<String, char>,
+}
+
+fn list_all(base: &Path, dir: &Path, out: &mut BTreeMap<String, char>) {
+    let Ok(rd) = std::fs::read_dir(dir) else { return };
+    for e in rd.flatten() {
+        let p = e.path();
+        let Ok(md) = std::fs::symlink_metadata(&p) else { continue };
+        let rel = p.strip_prefix(base).unwrap_or(&p).display().to_string();
+        let k = if md.file_type().is_symlink() {
+            'l'
+        } else if md.is_dir() {
+            'd'
+        } else {
+            'f'
+        };
+        out.insert(rel, k);
+        if k == 'd' {
+            list_all(base, &p, out);
+        }
+    }
 }
 
 fn snapshot(root: &Path, tree: &Tree) -> Snapshot {
@@ -434,7 +451,10 @@ fn snapshot(root: &Path, tree: &Tree) -> Snapshot {
             files.insert(e.path.clone(), (bytes, mt));
         }
     }
-    Snapshot { files }
+    let mut listing = BTreeMap::new();
+    let base = root.parent().unwrap_or(root);
+    list_all(base, base, &mut listing);
+    Snapshot { files, listing }
 }
 
 fn set_immutable(p: &Path, on: bool) -> bool {
@@ -776,13 +796,21 @@ fn expect(state0: &BTreeMap<String, Vec<u8>>, tree: &Tree, inv: &Invocation, env
     match &inv.shape {
         Shape::Files(fs) => {
             for p in fs {
+                // a symbolic link named on the command line is read and written THROUGH (it stays a link)
+                let key: String = match entry_kind(p) {
+                    Some(Kind::Symlink { target }) => match target.strip_prefix("outside/") {
+                        Some(o) => format!("//outside/{o}"),
+                        None => target.clone(),
+                    },
+                    _ => p.clone(),
+                };
                 let text: Result<String, ()> = match entry_kind(p) {
-                    Some(Kind::File { .. }) => String::from_utf8(state_mut.get(p).cloned().unwrap_or_default()).map_err(|_| ()),
+                    Some(Kind::File { .. }) | Some(Kind::Symlink { .. }) => String::from_utf8(state_mut.get(&key).cloned().unwrap_or_default()).map_err(|_| ()),
                     _ => Err(()), // missing, directory, dangling symlink
                 };
-                handle(Some(p), text, &mut ex, &mut out, inv.inplace && !inv.check);
-                if let Some(fe) = ex.files.get(p) {
-                    state_mut.insert(p.clone(), fe.bytes.clone());
+                handle(Some(&key), text, &mut ex, &mut out, inv.inplace && !inv.check);
+                if let Some(fe) = ex.files.get(&key) {
+                    state_mut.insert(key.clone(), fe.bytes.clone());
                 }
             }
             if !inv.inplace && !inv.check {
@@ -957,7 +985,25 @@ impl Prop for CliProp {
                     st.label("usage-error:inplace+check");
                     continue;
                 }
-                return Verdict::skip("usage-error(generator)");
+                // every other generated invocation is valid (on the pinned tree none is rejected): being
+                // rejected as a whole means that no input was processed
+                return Verdict::fail(
+                    format!("{}:unexpected-usage-error", self.id()),
+                    format!("{ctx}: the CLI rejected the whole invocation (status 2): {}", syn::clip(&String::from_utf8_lossy(&out.stderr), 240)),
+                );
+            }
+            // ---- shape of the tree: nothing appears, disappears or changes its kind (a symbolic link stays
+            // a link, no temporary file is left behind)
+            if before.listing != after.listing {
+                let diff: Vec<String> = after
+                    .listing
+                    .iter()
+                    .filter(|(p, k)| before.listing.get(*p) != Some(k))
+                    .map(|(p, k)| format!("{p} is now '{k}' (was {:?})", before.listing.get(p)))
+                    .chain(before.listing.keys().filter(|p| !after.listing.contains_key(*p)).map(|p| format!("{p} disappeared")))
+                    .take(4)
+                    .collect();
+                return Verdict::fail(format!("{}:tree-shape-changed", self.id()), format!("{ctx}: {}", diff.join("; ")));
             }
             // ---- files
             for (p, fe) in &ex.files {
